@@ -21,6 +21,7 @@ type EntryReport struct {
 	ErrPaths     int
 	Infeasible   int
 	OutOfGrammar int
+	TextOnly     int // paths whose functional contract is not under verification (text-level obligations only)
 	Results      []driver.ObResult
 	Queries      []*smt.Query
 	Obls         []*vc.Obligation
@@ -197,56 +198,92 @@ func RunEntry(l *driver.Loaded, b *Builder, entryKey string, opt RunOpts) (*Entr
 				genArgs[n] = p.Args[i]
 			}
 		}
-		for vi, variant := range basicVariants(p) {
-			vid := id
-			if vi > 0 {
-				vid = fmt.Sprintf("%s.%d", id, vi)
-			}
-			in := b.Build(entryKey, con, p, genArgs, variant)
-			desc := p.Name() + variantDesc(variant)
-			if len(rep.Samples) < 3 {
-				rep.Samples = append(rep.Samples, desc+"\n"+in.Src)
-			}
-			if in.ParseErr != nil {
-				rep.Results = append(rep.Results, ores(entryKey, "G4", "parses", vid, false, in.ParseErr.Error()+" on path "+desc, in.Src))
-				continue
-			}
-			rep.Results = append(rep.Results, ores(entryKey, "G4", "parses", vid, true, "", ""))
-			rep.Results = append(rep.Results, ores(entryKey, "hole-integrity", "", vid, len(in.Torn) == 0, strings.Join(in.Torn, "; ")+" on path "+desc, in.Src))
-			if len(in.TypeErrs) > 0 {
-				rep.Results = append(rep.Results, ores(entryKey, "typecheck", "", vid, false, strings.Join(in.TypeErrs, "; ")+" on path "+desc, in.Src))
-				continue
-			}
-			rep.Results = append(rep.Results, ores(entryKey, "typecheck", "", vid, true, "", ""))
-			hd := in.CheckHeader()
-			rep.Results = append(rep.Results, ores(entryKey, "header", "", vid, len(hd) == 0, strings.Join(hd, "; ")+" on path "+desc, in.Src))
-			if opt.NoVC || len(con.Attrs["o-ensures"]) == 0 && len(con.Attrs["serves"]) == 0 {
-				continue
-			}
-			e, err := in.Verify()
-			if err != nil {
-				return nil, fmt.Errorf("%s: path %s: %v\n%s", entryKey, desc, err, in.Src)
-			}
-			probes++
-			if probes > 3 {
-				// vacuity probes are kept for the first paths only: entry states of
-				// further paths of the same function differ only in type facts
-				var keep []*vc.Obligation
-				for _, o := range e.Obls {
-					if !o.ExpectSat {
-						keep = append(keep, o)
+		// o-fork: case distinctions the property makes although the generator
+		// does not (e.g. whether an element type is comparable)
+		forks := forkVariants(b, con, p, genArgs)
+		bvs := basicVariants(p)
+		nvar := 0
+		for _, fk := range forks {
+			for _, variant := range bvs {
+				vid := id
+				if nvar > 0 {
+					vid = fmt.Sprintf("%s.%d", id, nvar)
+				}
+				nvar++
+				for k := range p.Preds {
+					if strings.HasPrefix(k, "o-fork.") {
+						delete(p.Preds, k)
 					}
 				}
-				e.Obls = keep
+				entryKey := entryKey
+				if len(fk) > 0 {
+					var ts []string
+					for k, v := range fk {
+						p.Preds[k] = v
+						yn := "no"
+						if v == geval.Yes {
+							yn = "yes"
+						}
+						ts = append(ts, strings.TrimPrefix(k, "o-fork.")+"="+yn)
+					}
+					sort.Strings(ts)
+					entryKey = strings.TrimSuffix(entryKey, "]") + "," + strings.Join(ts, ",") + "]"
+					entryKey = strings.Replace(entryKey, "[,", "[", 1)
+				}
+				if vd := variantDesc(variant); vd != "" {
+					entryKey = strings.TrimSuffix(entryKey, "]") + "," + strings.Trim(vd, " []") + "]"
+					entryKey = strings.Replace(entryKey, "[,", "[", 1)
+				}
+				in := b.Build(entryKey, con, p, genArgs, variant)
+				desc := p.Name() + variantDesc(variant)
+				if len(rep.Samples) < 3 {
+					rep.Samples = append(rep.Samples, desc+"\n"+in.Src)
+				}
+				if in.ParseErr != nil {
+					rep.Results = append(rep.Results, ores(entryKey, "G4", "parses", vid, false, in.ParseErr.Error()+" on path "+desc, in.Src))
+					continue
+				}
+				rep.Results = append(rep.Results, ores(entryKey, "G4", "parses", vid, true, "", ""))
+				rep.Results = append(rep.Results, ores(entryKey, "hole-integrity", "", vid, len(in.Torn) == 0, strings.Join(in.Torn, "; ")+" on path "+desc, in.Src))
+				if len(in.TypeErrs) > 0 {
+					rep.Results = append(rep.Results, ores(entryKey, "typecheck", "", vid, false, strings.Join(in.TypeErrs, "; ")+" on path "+desc, in.Src))
+					continue
+				}
+				rep.Results = append(rep.Results, ores(entryKey, "typecheck", "", vid, true, "", ""))
+				hd := in.CheckHeader()
+				rep.Results = append(rep.Results, ores(entryKey, "header", "", vid, len(hd) == 0, strings.Join(hd, "; ")+" on path "+desc, in.Src))
+				if opt.NoVC || len(con.Attrs["o-ensures"]) == 0 && len(con.Attrs["serves"]) == 0 {
+					continue
+				}
+				if only := con.Attr("o-only"); only != "" && !strings.Contains(","+PathTag(p)+",", ","+only+",") {
+					rep.TextOnly++
+					continue
+				}
+				e, err := in.Verify()
+				if err != nil {
+					return nil, fmt.Errorf("%s: path %s: %v\n%s", entryKey, desc, err, in.Src)
+				}
+				probes++
+				if probes > 3 {
+					// vacuity probes are kept for the first paths only: entry states of
+					// further paths of the same function differ only in type facts
+					var keep []*vc.Obligation
+					for _, o := range e.Obls {
+						if !o.ExpectSat {
+							keep = append(keep, o)
+						}
+					}
+					e.Obls = keep
+				}
+				for _, o := range e.Obls {
+					o.Name = "O:" + entryKey + "/" + holeNum.ReplaceAllString(strings.TrimPrefix(o.Name, in.Pkg.Name()+"."), Mark+"$1")
+					o.ID = o.Name + "#" + vid + "." + o.ID[strings.LastIndex(o.ID, "#")+1:]
+					o.Func = entryKey
+					o.Note = desc + "\n" + in.Src
+				}
+				rep.Queries = append(rep.Queries, e.Queries()...)
+				rep.Obls = append(rep.Obls, e.Obls...)
 			}
-			for _, o := range e.Obls {
-				o.Name = "O:" + entryKey + "/" + holeNum.ReplaceAllString(strings.TrimPrefix(o.Name, in.Pkg.Name()+"."), Mark+"$1")
-				o.ID = o.Name + "#" + vid + "." + o.ID[strings.LastIndex(o.ID, "#")+1:]
-				o.Func = entryKey
-				o.Note = desc + "\n" + in.Src
-			}
-			rep.Queries = append(rep.Queries, e.Queries()...)
-			rep.Obls = append(rep.Obls, e.Obls...)
 		}
 	}
 	return rep, nil
@@ -351,4 +388,37 @@ func PathTag(p *geval.Path) string {
 		}
 	}
 	return strings.Join(keep, ",")
+}
+
+// forkVariants: "o-fork: comparable <typeref>" yields the variants yes / no.
+func forkVariants(b *Builder, con interface{ Attr(string) string }, p *geval.Path, genArgs map[string]geval.Value) []map[string]geval.Tri {
+	out := []map[string]geval.Tri{{}}
+	c, ok := con.(interface{ AttrList(string) []string })
+	if !ok {
+		return out
+	}
+	for _, f := range c.AttrList("o-fork") {
+		ws := strings.Fields(f)
+		if len(ws) != 2 || ws[0] != "comparable" {
+			continue
+		}
+		tmp := &Instance{Path: p, Names: map[*geval.SymType]string{}, B: b, imports: map[string]string{}, Callees: map[string]*geval.Hole{}, Helpers: map[string]*geval.Hole{}}
+		t, err := tmp.ResolveTypeRef(ws[1], genArgs)
+		if err != nil {
+			continue
+		}
+		key := "o-fork.IsComparable(" + t.R().Desc + ")"
+		var next []map[string]geval.Tri
+		for _, m := range out {
+			for _, v := range []geval.Tri{geval.Yes, geval.No} {
+				n := map[string]geval.Tri{key: v}
+				for k, x := range m {
+					n[k] = x
+				}
+				next = append(next, n)
+			}
+		}
+		out = next
+	}
+	return out
 }
